@@ -11,3 +11,13 @@ def run(ctx):
     if ctx:
         ctx.log(f"translate: rc={p.returncode}")
     return p.returncode == 0, p.stdout
+
+
+def failed_generators():
+    """Generated Lean modules whose generator could not read the current source (their previous version is still in place)."""
+    import json
+    try:
+        st = json.load(open(os.path.join(common.VERIF, "lean", "MlsVerif", "Gen", "gen_manifest.json"))).get("status", {})
+    except Exception:  # noqa: BLE001
+        return {"*": "gen_manifest.json unreadable"}
+    return {k: v for k, v in st.items() if v != "ok"}
